@@ -398,6 +398,11 @@ func (group *Group) addIn() {
 
 // delIn 有pub或pull的输入型session离开时，需要调用该函数
 func (group *Group) delIn() {
+	// the dummy audio filter sits in front of everything else: what it still holds goes through the whole pipeline first
+	if group.dummyAudioFilter != nil {
+		group.dummyAudioFilter.Dispose()
+	}
+
 	// 注意，remuxer放前面，使得有机会将内部缓存的数据吐出来
 	if group.rtmp2MpegtsRemuxer != nil {
 		group.rtmp2MpegtsRemuxer.Dispose()
